@@ -82,6 +82,8 @@ def rand_exec(rng, nops):
             cands += ["clear", "swap", "copy", "assign", "resize", "resize", "resized", "reserve", "reserve"]
             if size[1] + size[2] <= 12:
                 cands += ["appendall"]
+            if n and n <= 8 and rng.random() < 0.12:   # append(pointer, count) with a range of the array's own elements
+                cands = ["appendrange"]
         else:
             cands = ["append"] * 7 if grow else []
             cands += ["rmat"] * 3 + ["rmref"] * 3 + ["rmfront", "rmback", "clear", "swap"]
@@ -138,6 +140,9 @@ def rand_exec(rng, nops):
             ops.append("%s %d 0 0" % (op, i)); size[i] += size[3 - i]
         elif op == "insertall":
             ops.append("insertall %d 0 %d" % (i, pos)); size[i] += size[3 - i]
+        elif op == "appendrange":
+            a0 = rng.randint(0, n); cnt = rng.randint(0, n - a0)
+            ops.append("appendrange %d %d %d" % (i, a0, cnt)); size[i] += cnt
         elif op in ("appendself", "prependself", "insertself", "assignself"):
             ops.append("%s %d 0 %d" % (op, i, pos))
             if op != "assignself":
@@ -217,6 +222,10 @@ def run(ctx):
     execs = sort_execs(6 if q else 8)
     ctx.notes["sort_sequences"] = sum(len(e) // 3 for e in execs)
     check_executions(ctx, binary, execs, "sortall")
+    #    ... and on long monotone lists in a thread with a small stack: the recursion depth must stay logarithmic (DepthLog)
+    check_executions(ctx, binary, [["new 1 list 0", "new 2 list 0", "sortbig 1 %d %d" % (order, n)]
+                                   for order, n in ([(0, 12000), (1, 12000), (2, 30000)] if q else [(0, 20000), (1, 20000), (2, 100000), (0, 2), (1, 3)])]
+                     + [["new 1 list 0", "new 2 list 0"] + ["poolsmall 1 0 %d" % n for n in (1, 3, 4, 5, 9, 13, 40)]], "sortbig")
     # 4. direction B: random histories over two variables of all three classes, validated by TLC against RefSeq
     nexec, nops = (500, 40) if q else (6000, 70)
     execs = [rand_exec(ctx.rng, nops) for _ in range(nexec)]
